@@ -85,6 +85,15 @@ func init() {
 		p.nondet = append(p.nondet, NondetRec{Kind: fmt.Sprintf("size:%d:%d", lo, hi), T: t})
 		return t
 	})
+	// vKnob(lo, hi): a native-only tuning input (e.g. how compressible a payload is) that the encoding does not
+	// depend on: the engine takes lo; the replay driver sweeps lo..hi natively like a vSize.
+	vreg("vKnob", func(p *Path, th *thread, caller *frame, pos token.Pos, fn *ssa.Function, args []Value) Value {
+		lo := int(p.concretize(termArg(args[0]), "vKnob lo"))
+		hi := int(p.concretize(termArg(args[1]), "vKnob hi"))
+		t := BV(64, uint64(lo))
+		p.nondet = append(p.nondet, NondetRec{Kind: fmt.Sprintf("size:%d:%d", lo, hi), T: t})
+		return t
+	})
 	vreg("vAssume", func(p *Path, th *thread, caller *frame, pos token.Pos, fn *ssa.Function, args []Value) Value {
 		p.assume(termArg(args[0]))
 		return nil
@@ -231,6 +240,10 @@ func init() {
 			if p.schedDet {
 				p.note("bound: one scheduling order per timing assignment (runnable thread with the lowest id first)")
 			}
+		case "lzw-sizes":
+			p.lzwSizes = v != 0
+		case "krandom-real":
+			p.kRandomReal = v != 0
 		case "krandom-det":
 			p.kRandomDet = v != 0
 		case "decode-arbitrary":
